@@ -421,6 +421,63 @@ func init() {
 					})
 				}
 			}
+			// names next to the methods the generated type declares itself (its private helpers): such a method's name with its
+			// leading underscores removed, with the first letter in either case, is a getter by the documented grammar unless it
+			// is reserved - accepted getters give a file that compiles, with G / GInContext of the documented signatures
+			w.Case("near-own-methods", func(c *C) {
+				rich := func(getter *string) *Cfg {
+					cfg := &Cfg{Meta: stdMeta(), Params: []Param{{"e", `%env("C13_X", "d")%`}, {"i", `%envInt("C13_I", 3)%`}, {"t", `%todo("later")%`}, {"m", "a%e%b%i%"}}}
+					cfg.Services = []Service{{Name: "one", Constructor: P("pk.New"), Args: []any{"%m%", "x%e%"}, Getter: getter, Type: P("*pk.Obj"), Tags: []Tag{{Name: "tg"}}}, {Name: "two", Constructor: P("pk.New"), Args: []any{"!tagged tg", "@one"}}}
+					cfg.Decorators = []Decorator{{Tag: "tg", Decorator: "pk.Dec1", Args: []any{"%i%"}}}
+					return cfg
+				}
+				br := w.Build([]File{{"c.yaml", rich(P("FetchOne")).YAML()}})
+				gi := Analyze(w.TC(false), br.Output, nil)
+				if !br.OK() || len(gi.Errs) > 0 {
+					c.Violation("near-own-methods-base", fmt.Sprintf("the base configuration of this family is meant to be accepted and to compile: exit %d %v", br.Exit, gi.Errs), nil, nil)
+					return
+				}
+				res := map[string]bool{}
+				for _, r := range reserved {
+					res[r] = true
+				}
+				cands := map[string]bool{}
+				for m := range gi.Methods {
+					t := strings.TrimLeft(m, "_")
+					if t == "" {
+						continue
+					}
+					for _, v := range []string{t, strings.ToLower(t[:1]) + t[1:], strings.ToUpper(t[:1]) + t[1:], t + "_", t + "1"} {
+						if okGetter(v) && !res[v] && v != "FetchOne" && !strings.HasPrefix(v, "FetchOne") && !strings.HasPrefix(v, "MustFetchOne") {
+							cands[v] = true
+						}
+					}
+				}
+				c.Distinct("all", c.ID)
+				c.Distinct("nontrivial", c.ID)
+				for _, g := range SortedKeys(cands) {
+					files := []File{{"c.yaml", rich(P(g)).YAML()}}
+					b := w.Build(files)
+					c.Count("collision_rows")
+					c.Count("evaluations_extra")
+					if b.Panic != "" {
+						c.Violation("panic", "tool panicked:\n"+b.Panic, FilesMap(files), nil)
+						continue
+					}
+					if !b.OK() {
+						c.Violation("getter-near-own-method-rejected", fmt.Sprintf("getter %q is a getter by the documented grammar and not reserved, yet rejected:\n%s", g, strings.Join(ErrorLines(b.Out), "\n")), FilesMap(files), nil)
+						continue
+					}
+					g2 := Analyze(w.TC(false), b.Output, nil)
+					if len(g2.Errs) > 0 {
+						c.Violation("getter-collides-with-own-method", fmt.Sprintf("getter %q accepted, the generated file does not compile: %s", g, g2.Errs[0]), FilesMap(files), nil)
+						continue
+					}
+					if _, ok := g2.Methods[g]; !ok {
+						c.Violation("getter-near-own-method-missing", fmt.Sprintf("getter %q accepted, the container type has no such method", g), FilesMap(files), nil)
+					}
+				}
+			})
 			// equal getters and the todo flag: a placeholder emits no methods, an explicit "todo: false" changes nothing
 			for _, tv := range []struct {
 				id     string
